@@ -434,12 +434,12 @@ func c18Gating(r *ev.Run, label string) {
 		}
 	}
 
-	// and after a failed SELECT
+	// and after a failed SELECT / EXAMINE
 	if rng.Intn(2) == 0 {
-		cn.Cmd("SELECT INBOX")
-		cn.Cmd("SELECT NoSuchMailbox")
+		cn.Cmd([]string{"SELECT INBOX", "EXAMINE INBOX", "SELECT Work"}[rng.Intn(3)])
+		cn.Cmd([]string{"SELECT NoSuchMailbox", "EXAMINE NoSuchMailbox", "EXAMINE \"\"", "SELECT INBOX/nothing/here"}[rng.Intn(4)])
 
-		if !c.gateBatch(cn, "after a failed SELECT", true, 8) {
+		if !c.gateBatch(cn, "after a failed SELECT/EXAMINE", true, 8) {
 			return
 		}
 	}
